@@ -14,6 +14,7 @@ import (
 	"fmt"
 	"io"
 	"net/http"
+	"time"
 
 	rhttp3 "github.com/apernet/quic-go/http3"
 
@@ -51,6 +52,7 @@ type Response struct {
 	Header      http.Header
 	Body        []byte
 	WroteHeader bool
+	Flushes     int
 }
 
 type respWriter struct {
@@ -67,12 +69,28 @@ func (w *respWriter) WriteHeader(code int) {
 }
 func (w *respWriter) Write(b []byte) (int, error) {
 	if !w.r.WroteHeader {
+		// as the real responseWriter (and net/http) do: a body written without WriteHeader and
+		// without a Content-Type gets one sniffed from its first bytes
+		_, haveType := w.r.Header["Content-Type"]
+		if !haveType && w.r.Header.Get("Content-Encoding") == "" && len(b) > 0 {
+			w.r.Header.Set("Content-Type", http.DetectContentType(b))
+		}
 		w.WriteHeader(http.StatusOK)
 	}
 	w.r.Body = append(w.r.Body, b...)
 	return len(b), nil
 }
-func (w *respWriter) Flush() {}
+func (w *respWriter) Flush() {
+	if !w.r.WroteHeader {
+		w.WriteHeader(http.StatusOK)
+	}
+	w.r.Flushes++
+}
+
+// FlushError, SetReadDeadline, SetWriteDeadline: what http.ResponseController finds on the real writer.
+func (w *respWriter) FlushError() error                  { w.Flush(); return nil }
+func (w *respWriter) SetReadDeadline(t time.Time) error  { return nil }
+func (w *respWriter) SetWriteDeadline(t time.Time) error { return nil }
 
 // Server mirrors http3.Server.
 type Server struct {
